@@ -25,6 +25,10 @@ const (
 // typicalTransitions is a set of standard transitions for a finite state machine.
 var typicalTransitions = transitions.Typical
 
+// forwardGracePeriod is how long a state that is in flight when a subscription's context
+// ends is still offered to the subscriber before the forwarding goroutine gives up.
+const forwardGracePeriod = 100 * time.Millisecond
+
 // Machine wraps go-fsm v2 to provide a simplified API with broadcast support.
 type Machine struct {
 	*fsm.Machine
@@ -56,7 +60,18 @@ func (s *Machine) getStateChanInternal(ctx context.Context, opts ...broadcast.Op
 	go func() {
 		defer close(wrappedCh)
 		for state := range userCh {
-			wrappedCh <- state
+			select {
+			case wrappedCh <- state:
+			case <-ctx.Done():
+				// The subscription has ended. A reader that is still draining gets a
+				// moment to take the state in flight; one that has stopped reading
+				// must not keep this goroutine blocked forever.
+				select {
+				case wrappedCh <- state:
+				case <-time.After(forwardGracePeriod):
+					return
+				}
+			}
 		}
 	}()
 
